@@ -3,7 +3,8 @@
 import json, os, sys
 HERE = os.path.dirname(os.path.dirname(os.path.abspath(__file__)))
 pid, wt, out, n = sys.argv[1:5]
-round2 = len(sys.argv) > 5
+round2 = len(sys.argv) > 5 and sys.argv[5] == 'r2'
+round3 = len(sys.argv) > 5 and sys.argv[5] == 'r3'
 props = {json.loads(l)['id']: json.loads(l) for l in open(os.path.join(HERE, 'properties.jsonl'))}
 p = props[pid]
 t = open(os.path.join(HERE, 'tools', 'breaker_prompt.md')).read()
@@ -17,6 +18,20 @@ render, another template or namespace used earlier in the same process, a cache)
 used option combinations or option spellings, on unusual but legal value/container types, on the less common of the
 surface syntaxes, or on an interaction between two features. Each change must still be a clear violation of the
 property as stated (not of something the statement leaves open).
+
+YOUR TASK:''', 1)
+if round3:
+    t = t.replace('YOUR TASK:', '''NOTE: two earlier batches of seeded bugs for this property already covered direct mutations of the central
+functions and simple caches / history effects. This batch must be of a DIFFERENT KIND. Each change should be one of:
+(a) TWO COOPERATING SITES that each look correct alone (a helper whose contract is subtly changed plus a caller that
+relied on the old contract; an invariant established in one module and consumed in another);
+(b) a fault / exception at ONE PARTICULAR POINT (only the k-th element, only inside a handler, only while another
+block is active, only on the second level of nesting) after which behaviour is wrong;
+(c) an effect visible only for a boundary value of a parameter or length (0, 1, exactly at a threshold), an unusual
+but legal container / value type, or one specific spelling in one of the three surface syntaxes;
+(d) an optimisation that is valid for most inputs but wrong for a describable minority.
+Avoid: plain process-wide memo dictionaries, and changes any first use of the feature would expose. Each change must
+still be a clear violation of the property as stated (not of something the statement leaves open).
 
 YOUR TASK:''', 1)
 print(t)
